@@ -305,6 +305,14 @@ def trim_cases(seed, count, repo_import, ai_mod, pysam, hdr):
                 seq.append("T" * (L - pre) + rand_seq(pre))
         if rng.random() < 0.3:
             k = rng.randint(1, 30); cigar.append((4, k)); seq.append("A" * k if rng.random() < 0.7 else rand_seq(k))
+        # hard clips (consume neither query nor reference): outside a soft clip, or on their own
+        hard_left = rng.choice((0, 0, 0, 7, 40))
+        hard_right = rng.choice((0, 0, 0, 7, 40))
+        plain_cigar = list(cigar)
+        if hard_left:
+            cigar.insert(0, (5, hard_left))
+        if hard_right:
+            cigar.append((5, hard_right))
         a = pysam.AlignedSegment(hdr)
         a.query_name = "t%d" % it
         a.reference_id = 0
@@ -312,6 +320,24 @@ def trim_cases(seed, count, repo_import, ai_mod, pysam, hdr):
         a.cigartuples = cigar
         a.query_sequence = "".join(seq)
         try:
+            if hard_left or hard_right:
+                # the same record without its hard clips must be processed identically
+                b = pysam.AlignedSegment(hdr)
+                b.query_name = a.query_name
+                b.reference_id = 0
+                b.reference_start = a.reference_start
+                b.cigartuples = plain_cigar
+                b.query_sequence = a.query_sequence
+                ia, ib = ai_mod.AlignmentInfo(a), ai_mod.AlignmentInfo(b)
+                fa, fb = pf.PolyAFinder(16, 0.75), pf.PolyAFinder(16, 0.75)
+                ia.add_polya_info(fa, pv.PolyAFixer(SimpleNamespace(max_fake_terminal_exon_len=max_fake)))
+                ib.add_polya_info(fb, pv.PolyAFixer(SimpleNamespace(max_fake_terminal_exon_len=max_fake)))
+                va = (ia.read_exons, ia.read_blocks, [getattr(ia.polya_info, nm_) for nm_ in POS_NAMES])
+                vb = (ib.read_exons, ib.read_blocks, [getattr(ib.polya_info, nm_) for nm_ in POS_NAMES])
+                out["hard_clip_pairs"] = out.get("hard_clip_pairs", 0) + 1
+                if va != vb:
+                    out["viol"].append(("hard-clip-changes-result", cigar_str(cigar), a.reference_start,
+                                        "with hard clips: exons %s tails %s; without: exons %s tails %s" % (va[0], va[2], vb[0], vb[2]), ""))
             info = ai_mod.AlignmentInfo(a)
             ex0, rb0, cb0 = list(info.read_exons), list(info.read_blocks), list(info.cigar_blocks)
             inject = rng.random() < 0.35
@@ -455,7 +481,7 @@ def run(chk, scratch):
     max_ops = 7 if thorough else 5
     chk.rule = ("exhaustive over CIGAR cores of <=%d operations over {M,=,X,I,D,N} (no two equal adjacent ops, lengths in {1,3}, "
                 "N-delimited segments without aligned bases included) x clip variants {none,S,HS,H}x{none,S,SH,H} (all 16 up to 4 ops, 4 above), "
-                "plus random long CIGARs, plus tail-trimming cases on A/T-run terminal exons (real finder and injected positions); "
+                "plus random long CIGARs, plus tail-trimming cases on A/T-run terminal exons (real finder and injected positions; hard clips outside soft clips or on their own, each record also compared with its twin without hard clips); "
                 "non-trivial = distinct operator-pattern classes (indel next to N, leading/trailing indel, S, H, several N) / trimming classes (exons removed on A side, T side)") % max_ops
     cores = list(enum_cores(max_ops))
     small = [c for c in cores if len(c) <= 4]
@@ -488,6 +514,7 @@ def run(chk, scratch):
             total_evals += res.get("evals", 0)
             ai += res.get("ai", 0)
             trimmed += res.get("trimmed", 0)
+            chk.count("hard_clip_pairs_compared", res.get("hard_clip_pairs", 0))
             for k, v in res.get("classes", {}).items():
                 classes[k] = classes.get(k, 0) + v
             for k, v in res.get("trim_classes", {}).items():
@@ -510,4 +537,5 @@ def run(chk, scratch):
                        "N-delimited segments without an aligned base yield no exon (deletion-only segments may be reported or dropped); all other exons must be exact"]
     chk.inconclusive_if(total_evals == 0, "contract on get_read_blocks never evaluated")
     chk.inconclusive_if(trimmed == 0, "no read had terminal exons trimmed")
+    chk.inconclusive_if(chk.extra.get("hard_clip_pairs_compared", 0) == 0, "no hard-clipped record compared with its unclipped twin")
     chk.min_nontrivial = 8
